@@ -24,6 +24,7 @@ func newFuncVC(p *Prog, fn *ssa.Function, c *Contract) *FuncVC {
 	fv.Name = strings.Replace(fv.Name, p.ModPath+".", "zerolog.", 1)
 	if c != nil {
 		fv.Mode = c.Mode
+		fv.fp = c.Flags["fp"] != ""
 	}
 	fv.entry = newState()
 	return fv
@@ -1192,6 +1193,41 @@ func (fv *FuncVC) floatOp(name string, rt types.Type, args ...Term) Term {
 	fn := fmt.Sprintf("%s_%s", name, sortTag(rs, fv.Mode))
 	for _, a := range args {
 		fn += "_" + sortTag(a.Sort, fv.Mode)
+	}
+	if fv.fp {
+		body := ""
+		switch name {
+		case "fneg":
+			body = "(fp.neg x0)"
+		case "fadd":
+			body = "(fp.add RNE x0 x1)"
+		case "fsub":
+			body = "(fp.sub RNE x0 x1)"
+		case "fmul":
+			body = "(fp.mul RNE x0 x1)"
+		case "fdiv":
+			body = "(fp.div RNE x0 x1)"
+		case "fabs":
+			body = "(fp.abs x0)"
+		case "fconv":
+			if rs.Kind == KFloat && len(args) == 1 {
+				eb, sb := fpDims(rs.W)
+				switch {
+				case args[0].Sort.Kind == KFloat:
+					body = fmt.Sprintf("((_ to_fp %d %d) RNE x0)", eb, sb)
+				case args[0].Sort.Kind == KInt && fv.Mode == ModeInt:
+					body = fmt.Sprintf("((_ to_fp %d %d) RNE (to_real x0))", eb, sb)
+				}
+			}
+		}
+		if body != "" {
+			fv.ensureSort(rs)
+			for _, a := range args {
+				fv.ensureSort(a.Sort)
+			}
+			fv.fpDefine(fn, ss, rs.smt(fv.Mode), body)
+			return Term{S: app(fn, as...), Sort: rs, Go: rt}
+		}
 	}
 	fv.declareFun(fn, ss, rs.smt(fv.Mode))
 	return Term{S: app(fn, as...), Sort: rs, Go: rt}
